@@ -399,6 +399,11 @@ impl GlyphDeltas {
         if deltas.iter().all(|d| d.required) {
             return PackedPointNumbers::All;
         }
+        // an empty list of point numbers cannot be encoded: a count of zero
+        // means 'all points', so the reader would expect a delta per point.
+        if !deltas.iter().any(|d| d.required) {
+            return PackedPointNumbers::All;
+        }
 
         let dense = Self::build_non_sparse_data(deltas);
         let sparse = Self::build_sparse_data(deltas);
